@@ -63,8 +63,23 @@ def fmt_exp(exp):
     return " or ".join("a rejection" if o["err"] else "%s %s" % (o["s"], o["k"]) for o in exp)
 
 
+def args_for(case, mode):
+    """cells whose variables are declared with := are run at optimizer level 3, where such locals live in register slots
+    (a different compilation of x++ and of stores); all other cells run with the default settings"""
+    return ("--types", mode) + (("-o", "3") if case.get("decl") == "def" else ())
+
+
+def run_cells(ego, env, wd, cases, mode, sids, guard, batch, stats, nproc):
+    obs = {}
+    for args in sorted({args_for(cases[i], mode) for i in sids}):
+        sn = [ep.snippet_arith("ego", i, cases[i], guard=guard) for i in sids if args_for(cases[i], mode) == args]
+        obs.update(ep.run_snippets_ego(ego, env, os.path.join(wd, "o3" if "-o" in args else "o"), sn, list(args),
+                                       batch=batch, stats=stats, nproc=nproc))
+    return obs
+
+
 def src_of(case, mode):
-    return "ego run --types %s:  %s" % (mode, " ; ".join(ep.snippet_arith("ego", 0, case)[1]))
+    return "ego run %s:  %s" % (" ".join(args_for(case, mode)), " ; ".join(ep.snippet_arith("ego", 0, case)[1]))
 
 
 def go_crosscheck(chk, sd, cases):
@@ -104,9 +119,9 @@ def ego_stage(sd, cases, ego, env, stats):
     def one(mode):
         # every cell is isolated by try/catch (one failing cell cannot mask another, one round of processes);
         # the self-test re-runs a sample without try/catch and requires identical observations
-        sn = [ep.snippet_arith("ego", i, c, guard=True) for i, c in enumerate(cases) if c["exp"][mode]["wf"]]
         st = {}
-        obs = ep.run_snippets_ego(ego, env, os.path.join(sd, "ego-" + mode), sn, ["--types", mode], batch=BATCH, stats=st, nproc=6)
+        obs = run_cells(ego, env, os.path.join(sd, "ego-" + mode), cases, mode,
+                        [i for i, c in enumerate(cases) if c["exp"][mode]["wf"]], True, BATCH, st, 6)
         return mode, obs, st
     with ThreadPoolExecutor(max_workers=3) as ex:
         for mode, obs, st in ex.map(one, MODES):
@@ -123,7 +138,7 @@ def replay(path):
     case, mode = rp["case"], rp["mode"]
     with vf.scratch() as sd:
         ego = vf.build_ego(sd, stable_overlay(sd))
-        o = ep.run_snippets_ego(ego, vf.ego_env(sd), os.path.join(sd, "replay"), [ep.snippet_arith("ego", 0, case)], ["--types", mode], batch=1)[0]
+        o = run_cells(ego, vf.ego_env(sd), os.path.join(sd, "replay"), [case], mode, [0], False, 1, {}, 1)[0]
     d = judge(case, mode, o)
     print(ep.ego_program([ep.snippet_arith("ego", 0, case)]))
     print("observed:", o, "\nexpected:", fmt_exp(case["exp"][mode]["o"]), "\nverdict:", d or "conforms")
@@ -144,7 +159,7 @@ def run():
     chk.assumptions += [
         "floating and complex operands are dyadic values whose results are exact in the result type; inexact results, "
         "signed zeros, x/0.0, int->float conversions that round, float->int conversions that overflow are outside the specification's domain",
-        "default ego settings (ego.runtime.precision.error=false, default optimizer level); programs are run with `ego run --types M`",
+        "default ego settings (ego.runtime.precision.error=false); programs are run with `ego run --types M` (cells declared with := also with -o 3)",
         "for two typed operands of different kinds the reference fixes the result kind only up to: integer < float < complex, "
         "the containing kind inside a family, either kind for signed/unsigned mixes that do not contain each other",
         "operators covered: + - * / % unary-minus ++ -- += -= *= /= and x = x op k; bit operators, shifts and ^ are not",
@@ -206,10 +221,8 @@ def run():
             errs = [sid for sid in pick if seen[(mode, sid)]["err"] is not None][:ISO_ERR]
             oks = [sid for sid in pick if seen[(mode, sid)]["err"] is None][:ISO_OK]
             st = {}
-            ob = ep.run_snippets_ego(ego, env, os.path.join(sd, "iso-" + mode), [ep.snippet_arith("ego", sid, cases[sid]) for sid in oks],
-                                     ["--types", mode], batch=100, stats=st, nproc=5)
-            ob.update(ep.run_snippets_ego(ego, env, os.path.join(sd, "isoe-" + mode), [ep.snippet_arith("ego", sid, cases[sid]) for sid in errs],
-                                          ["--types", mode], batch=1, stats=st, nproc=5))
+            ob = run_cells(ego, env, os.path.join(sd, "iso-" + mode), cases, mode, oks, False, 100, st, 5)
+            ob.update(run_cells(ego, env, os.path.join(sd, "isoe-" + mode), cases, mode, errs, False, 1, st, 5))
             return mode, oks + errs, ob, st
         niso = 0
         with ThreadPoolExecutor(max_workers=3) as ex:
